@@ -51,7 +51,8 @@ func replaceDir(src, dst string) {
 type crashImage struct {
 	state  int // number of durable writes of the state store that reached disk (0 = old ... stateK = new)
 	stateK int // durable writes the state store makes for this block (1 = one batch; 2 = batch + journal pruning)
-	index  int // 0 old, 1 new
+	index  int // number of durable writes of the chain index store that reached disk (0 = old ... indexK = new)
+	indexK int // durable writes the chain index store makes for this block (normally one batch)
 	bfStep int // 0..10 completed blockfile writes
 }
 
@@ -62,7 +63,12 @@ func (c crashImage) String() string {
 	} else if c.state == c.stateK {
 		st = "new"
 	}
-	ix := []string{"old", "new"}[c.index]
+	ix := fmt.Sprintf("%d-of-%d-writes", c.index, c.indexK)
+	if c.index == 0 {
+		ix = "old"
+	} else if c.index == c.indexK {
+		ix = "new"
+	}
 	return fmt.Sprintf("state=%s index=%s blockfile-writes=%d/10", st, ix, c.bfStep)
 }
 
@@ -72,7 +78,12 @@ func (c crashImage) class() string {
 	if c.state == 0 {
 		st = "old"
 	}
-	ix := []string{"old", "new"}[c.index]
+	ix := "new"
+	if c.index == 0 {
+		ix = "old"
+	} else if c.index < c.indexK {
+		ix = "partial"
+	}
 	bf := "partial"
 	if c.bfStep == 0 {
 		bf = "old"
@@ -82,7 +93,7 @@ func (c crashImage) class() string {
 	return fmt.Sprintf("state=%s index=%s blockfile=%s", st, ix, bf)
 }
 
-func composeImage(img, oldDir string, stateDirs map[int]string, newDir string, c crashImage) {
+func composeImage(img, oldDir string, stateDirs, indexDirs map[int]string, newDir string, c crashImage) {
 	sim.CopyDir(oldDir, img)
 	switch {
 	case c.state == c.stateK:
@@ -90,8 +101,11 @@ func composeImage(img, oldDir string, stateDirs map[int]string, newDir string, c
 	case c.state > 0:
 		replaceDir(filepath.Join(stateDirs[c.state], "storage", "ledger"), filepath.Join(img, "storage", "ledger"))
 	}
-	if c.index == 1 {
+	switch {
+	case c.index == c.indexK:
 		replaceDir(filepath.Join(newDir, "storage", "blockchain"), filepath.Join(img, "storage", "blockchain"))
+	case c.index > 0:
+		replaceDir(filepath.Join(indexDirs[c.index], "storage", "blockchain"), filepath.Join(img, "storage", "blockchain"))
 	}
 	for i, tbl := range bfTables {
 		dataNew := c.bfStep >= 2*i+1
@@ -260,39 +274,44 @@ func c11Property(t *rapid.T) {
 	// when journals are pruned); for every proper prefix of them a copy of the state store with exactly that prefix
 	// on disk is produced by a run whose store drops the later writes
 	prune := h > 10
-	runWith := func(allowed int) (string, int) {
+	runWith := func(allowedState, allowedChain int) (string, int, int) {
 		d := sim.NewDir("c11-s")
 		cleanup = append(cleanup, d)
 		sim.CopyDir(oldDir, d)
-		var fs *sim.FaultStore
+		var fs, fc *sim.FaultStore
 		o2 := opts
 		o2.WrapState = func(s storage.Storage) storage.Storage { fs = sim.NewFaultStore(s); return fs }
+		o2.WrapChain = func(s storage.Storage) storage.Storage { fc = sim.NewFaultStore(s); return fc }
 		n1, err := sim.TryOpenNode(d, o2)
 		if err != nil {
 			f.fail("cannot open a copy of the node: %v", err)
 		}
-		fs.Arm(allowed)
+		fs.Arm(allowedState)
+		fc.Arm(allowedChain)
 		exec(n1, crashBlock)
-		seen := fs.Seen
+		seenS, seenC := fs.Seen, fc.Seen
 		n1.Close()
-		return d, seen
+		return d, seenS, seenC
 	}
-	_, stateK := runWith(1 << 30)
-	if stateK < 1 {
-		f.fail("harness: the state store made no durable write for block %d", h)
+	_, stateK, indexK := runWith(1<<30, 1<<30)
+	if stateK < 1 || indexK < 1 {
+		f.fail("harness: the stores made no durable write for block %d (state %d, index %d)", h, stateK, indexK)
 	}
-	stateDirs := map[int]string{}
+	stateDirs, indexDirs := map[int]string{}, map[int]string{}
 	for k := 1; k < stateK; k++ {
-		stateDirs[k], _ = runWith(k)
+		stateDirs[k], _, _ = runWith(k, 1<<30)
+	}
+	for k := 1; k < indexK; k++ {
+		indexDirs[k], _, _ = runWith(1<<30, k)
 	}
 
 	st := sim.StatsFor("C11")
 	st.Exhaustive = true // every prefix combination of the durable writes is enumerated for each (history, height)
 	var images []crashImage
 	for s := 0; s <= stateK; s++ {
-		for ix := 0; ix <= 1; ix++ {
+		for ix := 0; ix <= indexK; ix++ {
 			for bf := 0; bf <= 10; bf++ {
-				images = append(images, crashImage{s, stateK, ix, bf})
+				images = append(images, crashImage{s, stateK, ix, indexK, bf})
 			}
 		}
 	}
@@ -306,7 +325,7 @@ func c11Property(t *rapid.T) {
 			continue
 		}
 		img := sim.NewDir("c11-img")
-		composeImage(img, oldDir, stateDirs, newDir, c)
+		composeImage(img, oldDir, stateDirs, indexDirs, newDir, c)
 		problem := func() string {
 			type opened struct {
 				n   *sim.Node
@@ -387,7 +406,7 @@ func c11Property(t *rapid.T) {
 			fmt.Printf("DBG image %s -> %q\n", c.String(), problem)
 		}
 		nt := ""
-		if !(c.state == 0 && c.index == 0 && c.bfStep == 0) && !(c.state == c.stateK && c.index == 1 && c.bfStep == 10) {
+		if !(c.state == 0 && c.index == 0 && c.bfStep == 0) && !(c.state == c.stateK && c.index == c.indexK && c.bfStep == 10) {
 			nt = fmt.Sprintf("%v/%d/%d/%s/%s", fresh, h, len(crashBlock.txs), c.String(), hashH)
 		}
 		cls := "image:" + c.class()
@@ -395,9 +414,9 @@ func c11Property(t *rapid.T) {
 			// known findings are matched by root cause: image shape AND the way it fails
 			kf := ""
 			switch {
-			case c.state == 0 && c.index == 1 && strings.Contains(problem, "node does not start") && strings.Contains(problem, "rollback to higher"):
+			case c.state == 0 && c.index == c.indexK && strings.Contains(problem, "node does not start") && strings.Contains(problem, "rollback to higher"):
 				kf = "KF-C11:state-behind-index"
-			case c.state > 0 && c.index == 1 && c.bfStep < 10 && strings.Contains(problem, "is not readable"):
+			case c.state > 0 && c.index == c.indexK && c.bfStep < 10 && strings.Contains(problem, "is not readable"):
 				kf = "KF-C11:index-ahead-of-blockstore"
 			case c.index == 0 && c.bfStep == 10 && strings.Contains(problem, "append out of order"):
 				kf = "KF-C11:blockstore-ahead-of-index"
